@@ -169,6 +169,10 @@ func ftokErrClass(msg string) string {
 		return "nokeyfile"
 	case strings.Contains(msg, "no such file"):
 		return "read"
+	case msg == "PKCS12 file needs a password and no password was provided":
+		return "p12noprompt"
+	case strings.HasPrefix(msg, "key \"") && strings.HasSuffix(msg, "cannot be used for signing"):
+		return "notsigner"
 	case strings.HasPrefix(msg, "openpgp: ") || strings.HasPrefix(msg, "pkcs12: ") || strings.HasPrefix(msg, "asn1: ") || strings.Contains(msg, "EOF") ||
 		strings.HasPrefix(msg, "illegal base64"):
 		return "parse"
